@@ -8,7 +8,7 @@
     locks and queries alone.  Hence, in every state reachable from a new world by any
     history of any operations, [is_locked] holds iff a query is open. *)
 From Arche Require Import Model.Base Model.Pool Model.Filter Model.World Model.Ops
-  Proofs.Locks Proofs.LockWorld Proofs.Frame Proofs.StepFrame Proofs.RelRefine.
+  Proofs.Locks Proofs.LockWorld Proofs.Frame Proofs.StepFrame Proofs.RelRefine Proofs.Atomic Proofs.GhostBase.
 
 Definition open_locks (w : world) : list nat :=
   map q_lock (filter (fun q => q_closed q = false) (w_queries w)).
@@ -204,7 +204,7 @@ Proof.
 Qed.
 
 (** ** Every operation keeps the invariant *)
-Theorem lockq_step w o : lockq w -> lockq (res_world (step w o)).
+Lemma lockq_step0 w o : lockq w -> lockq (res_world (step0 w o)).
 Proof.
   intros L.
   assert (Fr : forall w', frame w w' -> lockq w') by (intros w' F; apply (lockq_same w); [by apply lq_of_frame|done]).
@@ -322,6 +322,13 @@ Proof.
   - done.
   - done.
 Qed.
+
+Theorem lockq_step w o : lockq w -> lockq (res_world (step w o)).
+Proof.
+  intros L. destruct (step_cases w o) as [[-> _]|[_ ->]]; [by apply lockq_step0|].
+  simpl. apply (lockq_same w); [apply lq_of_frame, frame_ghost_of|done].
+Qed.
+
 
 (** ** Histories *)
 Theorem lockq_history ops : forall w, lockq w -> lockq (run w ops).
